@@ -9,7 +9,8 @@ EXTENDS TraceIO, AdapterSpecGrammar
 VARIABLE l
 SeqTexts == << <<65,67,71,84,65,67,71,84,84,71,67,65>>, <<65,65,78,78,84,84,71,71,67,67>>,
                <<65,67,71,123,51,125,84,84,65,67>>, <<97,99,103,116,110,123,50,125,97,99,103,116>>,
-               <<65,67,71,85,73,73,65,67,71,84>> >>
+               <<65,67,71,85,73,73,65,67,71,84>>,
+               <<65,67,71,84,123,57,125,65,67>> >>
 Nm == <<110, 109>>                \* "nm"
 RecName(i) == <<114, 48 + i>>     \* "r1", "r2"
 AllDigits(s) == Len(s) >= 1 /\ \A i \in 1..Len(s) : s[i] >= 48 /\ s[i] <= 57
